@@ -40,8 +40,10 @@
    empty Transactions during pre-validation, a view that keeps the spent marks of rejected
    transactions and never sees the coinbase outputs - are part of the model and are proved
    irrelevant under these hypotheses. *)
-From Coq Require Import List NArith Bool Permutation.
+From Coq Require Import List ZArith NArith Bool Permutation.
 From C38 Require Import Model Utxo Coinbase Proofs Examples.
+From C01 Require Model.
+From C38 Require CoinbaseGas.
 Import ListNotations.
 Open Scope N_scope.
 
@@ -151,6 +153,16 @@ Theorem c38_coinbase_any_order :
     pays (map to3 ((script, own) :: oth)) tbl = true.
 Proof. exact pays_created. Qed.
 Print Assumptions c38_coinbase_any_order.
+
+(* The hypothesis [cb_gas0], on the value-level model of validation.ValidateTx (C01/Model.v, tied to
+   the code by C01's correspondence run): a transaction whose only input is a coinbase input is
+   validated with GasUsed = 0, for every VM, parity-map order, constant table, block, output list. *)
+Theorem c38_coinbase_gas_zero :
+  forall cs vm perm b t i g,
+    C01.Model.t_inputs t = [i] -> C01.Model.i_kind i = C01.Model.KCoinbase ->
+    C01.Model.validate cs vm perm b t = Outcome.Ok g -> C01.Model.GasUsed g = Z0.
+Proof. exact CoinbaseGas.coinbase_only_gas_zero. Qed.
+Print Assumptions c38_coinbase_gas_zero.
 
 (* Necessity of the positivity hypothesis (what the code does when it fails): a reward entry of
    amount 0 under the proposer's own program makes the proposer's coinbase fail the validator's
